@@ -47,6 +47,7 @@ def make_instrumentation(log, tag):
 HOOKS = ["on_query_start", "on_query_end", "on_parsing_start", "on_parsing_end", "on_validation_start",
          "on_validation_end", "on_execution_start", "on_execution_end", "on_field_start", "on_field_end"]
 PARTIAL_TAG = 100
+FALSY_SINGLE = [False]     # switch: a lone recording instrumentation is built as a falsy object
 GROUP_TAG = 900
 
 
@@ -73,6 +74,11 @@ def make_instrumentations(log, k, partials=(), nest=None):
 
     recs = [make_instrumentation(log, i) for i in range(k)]
     if k == 1 and not partials and nest is None:
+        if FALSY_SINGLE[0]:
+            # an instrumentation object may well be falsy (a collecting tracer that defines __len__ and has not
+            # collected anything yet): it is still the configured instrumentation
+            cls = type(recs[0])
+            return type("EmptyCollector", (cls,), {"__len__": lambda self: 0})()
         return recs[0]
     members = list(recs)
     for tag, hooks, pos in partials:
